@@ -21,7 +21,7 @@ func init() {
 			"(8) all WorkerGrp.Do* delegate to ws[locHash(k)] with their own arguments and locHash(k) lies in [0, muxSize) for every key; the worker loop dequeues with PopAnyway and handles each item once. " +
 			"NOT decided: coherence when a callback fails after partially changing the store; ordering across workers; same-key serialisation under every schedule (follows informally from one FIFO worker per key, C12/C14).",
 		Assumptions: []string{"muxSize >= 1", "callbacks named load*/isNotFound* do not modify the store"},
-		Floors:      map[string]int{"C15.dispatch": 7, "C15.reply-once": 7, "C15.cache-set": 6, "C15.cache-delete": 1, "C15.refresh-on-hit": 5, "C15.dup-add": 1, "C15.key": 7, "C15.cache-writer": 7, "C15.route": 7, "C15.hash-range": 1, "C15.worker-loop": 1},
+		Floors:      map[string]int{"C15.dispatch": 7, "C15.reply-once": 7, "C15.cache-set": 6, "C15.cache-delete": 1, "C15.refresh-on-hit": 5, "C15.dup-add": 1, "C15.key": 7, "C15.cache-writer": 7, "C15.route": 7, "C15.hash-range": 1, "C15.worker-loop": 1, "C15.facade": 2},
 		Run:         runC15,
 	})
 }
@@ -370,6 +370,7 @@ func runC15(c *Ctx) {
 	// (8) routing
 	c.checkMuxRouting(inl)
 	c.checkMuxLoop(inl)
+	c.checkMuxFacade()
 }
 
 func (c *Ctx) checkMuxRouting(inl func(*ssa.Function, int) bool) {
@@ -577,5 +578,60 @@ func (c *Ctx) checkMuxLoop(inl func(*ssa.Function, int) bool) {
 		c.undecided("C15.worker-loop", cons, fn.Pos(), "no loop iteration found")
 	} else if ok {
 		c.holds("C15.worker-loop", cons, fn.Pos(), fmt.Sprintf("%d iterations: PopAnyway, each item handled once", iters))
+	}
+}
+
+// checkMuxFacade: the handlers' "cache Set / Delete" only mean what the coherence rules assume if the facade's
+// own Set and Delete reach the underlying cache on every path: after Set(key, v) the facade must not still
+// hold an older value for key (it stores v, or at least deletes key), and Delete(key) deletes key.
+func (c *Ctx) checkMuxFacade() {
+	const rel = "syncx/pipe/mux"
+	noInl := func(*ssa.Function, int) bool { return false }
+	for _, typ := range []string{"FacadeLRU", "FacadeMap"} {
+		for _, m := range []string{"Set", "Delete"} {
+			fn := c.fn(rel, "(*"+typ+")."+m)
+			if fn == nil || fn.Synthetic != "" {
+				continue // promoted from the embedded cache: the underlying method itself
+			}
+			cons := "(*mux." + typ + ")." + m
+			traces, complete := c.Trace(fn, TraceConfig{Inline: noInl})
+			if !complete {
+				c.undecided("C15.facade", cons, fn.Pos(), "path budget exceeded")
+				continue
+			}
+			ok, n := true, 0
+			key := "$" + fn.Params[1].Name()
+			for _, t := range traces {
+				if t.End != EndReturn {
+					continue
+				}
+				n++
+				reached := false
+				for _, e := range t.Events {
+					if e.Kind != EvCall || e.Callee == nil || len(e.Args) < 2 || e.Args[1].strip().Key() != key {
+						continue
+					}
+					switch e.Callee.Name() {
+					case "Set", "SetAndGetRemoved":
+						if m == "Set" && len(e.Args) >= 3 && e.Args[2].mentions("$"+fn.Params[2].Name()) {
+							reached = true
+						}
+					case "Delete":
+						reached = true
+					}
+				}
+				if !reached && ok {
+					ok = false
+					what := "stores the caller's value under the caller's key in the underlying cache (or at least deletes the key)"
+					if m == "Delete" {
+						what = "deletes the caller's key from the underlying cache"
+					}
+					c.violated("C15.facade", cons, fn.Pos(), "a path of the cache facade's "+m+" returns without having done what the worker relies on (it never "+what+"): an older value for the key survives a successful store operation and is served afterwards", c.witness(t, len(t.Events)-1)...)
+				}
+			}
+			if ok && n > 0 {
+				c.holds("C15.facade", cons, fn.Pos(), fmt.Sprintf("%d paths reach the underlying cache with the caller's key", n))
+			}
+		}
 	}
 }
